@@ -63,7 +63,7 @@ class Remote:
 class Repo:
     """commits {cid: Commit}; branches {"origin/release/1.0": cid}; tags {tagname: cid}"""
 
-    def __init__(self, name, commits, branches, tags, remote='origin', decoys=None):
+    def __init__(self, name, commits, branches, tags, remote='origin', decoys=None, other_tags=None):
         """branches are always NAMED "origin/..." here (the oracles use these names); with remote='upstream' the
         repository presents them as branches of the remote 'upstream' and `decoys` ({"origin/master": cid}) as the
         branches of an unrelated remote 'origin'"""
@@ -77,6 +77,10 @@ class Repo:
         self.tags = dict(tags)
         self.branches = dict(branches)
         for t, cid in tags.items():
+            self.refs["refs/tags/" + t] = commits[cid]
+        # tags that are no build tags (they only look similar): known to git, unknown to the oracles
+        self.other_tags = dict(other_tags or {})
+        for t, cid in self.other_tags.items():
             self.refs["refs/tags/" + t] = commits[cid]
         self._publish_branches()
 
@@ -333,7 +337,7 @@ def describe(repo):
                      {p: b.data.decode() for p, b in c.tree.files.items()}]
                     for c in repo.commits.values()],
         "branches": repo.branches, "tags": repo.tags, "remote": getattr(repo, 'remote', 'origin'),
-        "decoys": getattr(repo, 'decoys', {}),
+        "decoys": getattr(repo, 'decoys', {}), "other_tags": getattr(repo, 'other_tags', {}),
     }
 
 
@@ -342,4 +346,4 @@ def rebuild(descr):
     for cid, parents, msg, ts, files in descr["commits"]:
         commits[cid] = Commit(descr["name"], cid, [commits[p] for p in parents], msg, ts, files)
     return Repo(descr["name"], commits, descr["branches"], descr["tags"], descr.get("remote", "origin"),
-                descr.get("decoys"))
+                descr.get("decoys"), descr.get("other_tags"))
